@@ -6,7 +6,8 @@ import ScVerif.C19.Events
 ```
 reset | config <active mode> <mode;mode;…|->      (initial state: NewModel with WithInitialMode / WithInitialActiveMode)
 find <id>
-create <mode> <cands>      add <mode>        update <mode> <mask>     delete <id> <0|1>
+create <mode> <cands>      add <mode>        update <mode> <mask> [w<createIfAbsent 0|1><expectAbsent 0|1> <expected mode|->]
+delete <id> <0|1> [<expected mode|->]
 setactive <mode>           change <id> <now> clear <now>
 s.create <mode> <cands>    s.update <mode> <mask>   s.delete <id> <0|1>   s.change <id> <now>   s.clear <now>
   mode  = m:<idhex>:<titlehex>:<0|1>:<start|->[:<deschex>:<volts>:<seg,seg|->]        id = i<hex>
@@ -94,11 +95,27 @@ def parseMask? (s : String) : Option (Option Mask) :=
     pure (some ⟨fs.filterMap id, fs.any Option.isNone⟩)
   else none
 
+/-- `WithExpectedValue`: `-` (not given) or a mode -/
+def parseExpected? (s : String) : Option (Option Mode) :=
+  if s = "-" then some none else (parseMode? s).map some
+
+/-- Model-level write options: `w<createIfAbsent><expectAbsent>` and the expected value -/
+def parseWOpts? (w e : String) : Option WOpts :=
+  match w.toList with
+  | ['w', c, a] => do
+    let c ← parseBool? (String.singleton c)
+    let a ← parseBool? (String.singleton a)
+    let e ← parseExpected? e
+    pure { createIfAbsent := c, expectAbsent := a, expected := e }
+  | _ => none
+
 def parseOp? : List String → Option Op
   | ["create", m, c] => do pure (.create (← parseMode? m) (← parseCands? c))
   | ["add", m] => do pure (.add (← parseMode? m))
-  | ["update", m, k] => do pure (.update (← parseMode? m) (← parseMask? k))
-  | ["delete", i, a] => do pure (.delete (← parseId? i) (← parseBool? a))
+  | ["update", m, k] => do pure (.update (← parseMode? m) (← parseMask? k) {})
+  | ["update", m, k, w, e] => do pure (.update (← parseMode? m) (← parseMask? k) (← parseWOpts? w e))
+  | ["delete", i, a] => do pure (.delete (← parseId? i) (← parseBool? a) none)
+  | ["delete", i, a, e] => do pure (.delete (← parseId? i) (← parseBool? a) (← parseExpected? e))
   | ["setactive", m] => do pure (.setActive (← parseMode? m))
   | ["change", i, t] => do pure (.changeActive (← parseId? i) (← parseNat? t))
   | ["clear", t] => do pure (.clear (← parseNat? t))
@@ -125,7 +142,10 @@ def handleS (s : St) (toks : List String) : St × String :=
   | ["config", a, ms] =>
     -- NewModel(WithInitialMode(ms…), WithInitialActiveMode(a))
     match parseMode? a, (if ms = "-" then some [] else (ms.splitOn ";").mapM parseMode?) with
-    | some a, some ms => (St.config ms a, "ok " ++ showSt (St.config ms a))
+    | some a, some ms =>
+      match St.config? ms a with
+      | some s0 => (s0, "ok " ++ showSt s0)
+      | none => (St.init, "panic")
     | _, _ => (s, "!bad-op")
   | _ =>
     match parseOp? toks with
